@@ -29,7 +29,7 @@ META = {
                  "scripted random sequences over more peers with TLC-computed expectations",
     "level": "model_checking",
     "level_text": "TLC checks the six C42 formulas on every (metadata state, snapshot) pair over 2 peers with valid, "
-                  "invalid (rack / tokens missing; thorough: every kind of missing column on 1 peer, mixed valid+invalid "
+                  "invalid (tokens missing; thorough: every kind of missing column on 1 peer, mixed valid+invalid "
                   "rows, a row duplicating the control node, forced rebuilds, 3 peers), duplicated rows, 2 locations and 2 "
                   "token sets per host, as base case (first refresh at connect) and inductive step, so sequences of any "
                   "length over these hosts are covered. Every pair is then executed on the real "
@@ -53,7 +53,7 @@ def _configs(quick):
     base = {"Locs": {"a", "b"}, "TokVs": {1, 2}, "Forces": {False}}
     if quick:
         return [
-            ("2 peers, 5 row shapes", dict(base, Peers={1, 2}, Shapes={"absent", "valid", "norack", "notok", "dup"},
+            ("2 peers, 4 row shapes", dict(base, Peers={1, 2}, Shapes={"absent", "valid", "notok", "dup"},
                                            LocalLocs={"a"}, CtlDups={False}), False),
         ]
     return [
@@ -100,7 +100,7 @@ def _is_nontrivial(st):
 
 def _gen_scripts(rng, n_scripts, n_peers, steps=3):
     locs, toks = ["a", "b", "c"], [1, 2, 3]
-    weights = [("valid", 50), ("absent", 14), ("noaddr", 3), ("nohid", 3), ("nodc", 3), ("norack", 3), ("notok", 3),
+    weights = [("valid", 50), ("absent", 14), ("noaddr", 3), ("nohid", 3), ("nodc", 3), ("norack", 5), ("notok", 3),
                ("dup", 7), ("inv_valid", 7), ("valid_inv", 7)]
     bag = [s for s, w in weights for _ in range(w)]
 
@@ -194,24 +194,31 @@ def run(ctx):
 
     # ---- scripted sequences over more peers: TLC computes the expected states, the harness replays
     n_peers = 4 if ctx.quick else 5
-    n_scripts = 300 if ctx.quick else 6000
+    n_scripts = 300 if ctx.quick else 4500
     label[0] = "scripted sequences over %d peers" % n_peers
     scripts = _gen_scripts(ctx.rng, n_scripts, n_peers)
     sconsts = {"Peers": set(range(1, n_peers + 1)), "Locs": {"a", "b", "c"}, "TokVs": {1, 2, 3}, "Shapes": set(ALL_SHAPES),
                "LocalLocs": {"a", "b", "c"}, "CtlDups": {False, True}, "Forces": {False}}
-    sf = os.path.join(ctx.scratch, "scripts.json")
-    with open(sf, "w") as f:
-        json.dump(scripts, f)
     t0 = time.time()
     cfg = tlc.write_cfg(os.path.join(ctx.scratch, "script.cfg"), init="ScriptInit", next="ScriptNext", constants=sconsts,
                         invariants=INVARIANTS, deadlock=False)
-    res, sts = rc.dump_states("Script_ControlRefresh", cfg, ctx.scratch, keep=lambda b: '"Refresh"' in b,
-                              env={"TRACE_FILE": sf}, timeout=600 if ctx.quick else 3000)
-    ctx.add_tlc(res, "scripted 3-snapshot sequences, %d peers" % n_peers)
-    if res.violation:
-        ctx.violation("TLC: %s violated on a scripted sequence" % res.invariant,
-                      replay={"trace": [s for _, s in res.trace()]}, signature="spec:%s" % res.invariant)
-        return
+    sts = []
+    BATCH = 750          # TLC re-reads the script file for every state: keep the files small
+    for b0 in range(0, n_scripts, BATCH):
+        sf = os.path.join(ctx.scratch, "scripts_%d.json" % b0)
+        with open(sf, "w") as f:
+            json.dump(scripts[b0:b0 + BATCH], f)
+        res, part = rc.dump_states("Script_ControlRefresh", cfg, ctx.scratch, keep=lambda b: '"Refresh"' in b,
+                                   env={"TRACE_FILE": sf}, timeout=600 if ctx.quick else 3000)
+        ctx.add_tlc(res, "scripted 3-snapshot sequences, %d peers, scripts %d.." % (n_peers, b0 + 1))
+        if res.violation:
+            ctx.violation("TLC: %s violated on a scripted sequence" % res.invariant,
+                          replay={"trace": [s for _, s in res.trace()]}, signature="spec:%s" % res.invariant)
+            return
+        for st in part:
+            st = dict(st)
+            st["sid"] += b0
+            sts.append(st)
     timing["tlc:scripts"] = round(time.time() - t0, 1)
     by_sid = {}
     for st in sts:
